@@ -161,7 +161,6 @@ func goroutineDump() string {
 	return strings.Join(out, "\n\n")
 }
 
-
 func c17Property(t *rapid.T, st *Stats) {
 	tmp := mkTemp("c17")
 	defer os.RemoveAll(tmp)
@@ -211,7 +210,7 @@ func c17Property(t *rapid.T, st *Stats) {
 		vfs.Kill(root1)
 		fail("conversion-hangs", "opening the layout with the %s store did not finish within 30 s; goroutines inside olareg:\n%s", storeKind, trunc([]byte(dump), 3000))
 	}
-	nMut := vfs.MutCount()
+	nMut, nRead := vfs.MutCount(), vfs.ReadCount()
 	if prob != "" {
 		fail("conversion-result", "%s store, first open: %s", storeKind, prob)
 	}
@@ -303,6 +302,58 @@ func c17Property(t *rapid.T, st *Stats) {
 			fail("fault-repeat-differs", "I/O error at call %d, Close, then re-open gives other answers:\n--- uninterrupted\n%s--- after the error\n%s", k, obs1, obsA)
 		}
 		st.Add("fault-points-checked", 1)
+		_ = os.RemoveAll(rk)
+	}
+	// the same with a failing READ: the conversion reads every listed manifest to learn its subject; a manifest that
+	// could not be read once must not be dropped from the converted listing for good (the marker is set only once)
+	readPoints := []int{}
+	for k := 1; k <= nRead; k++ {
+		readPoints = append(readPoints, k)
+	}
+	if len(readPoints) > limit {
+		picked := []int{}
+		for len(picked) < limit {
+			picked = append(picked, rapid.IntRange(1, nRead).Draw(t, "readFaultPoint"))
+		}
+		readPoints = picked
+	}
+	for _, k := range readPoints {
+		rk := filepath.Join(tmp, fmt.Sprintf("rfault-%d", k))
+		copyTree(pristine, rk)
+		lk := *l
+		lk.root, lk.dir = rk, filepath.Join(rk, "r")
+		vfs.Reset(rk, false)
+		vfs.FailReadAt(k)
+		sk := olareg.New(c17Conf(config.StoreDir, rk))
+		if !withWatchdog(30*time.Second, func() { _, _ = c17Observe(sk, &lk) }) {
+			vfs.Kill(rk)
+			fail("conversion-hangs", "first open with reading call %d failing did not finish", k)
+		}
+		vfs.Reset(rk, false)
+		// the same process, storage healthy again: everything must be there now (the first answers are not judged)
+		var obsB, probB string
+		if !withWatchdog(30*time.Second, func() { obsB, probB = c17Observe(sk, &lk) }) {
+			vfs.Kill(rk)
+			fail("conversion-hangs", "reading again after reading call %d had failed did not finish", k)
+		}
+		_ = sk.Close()
+		sa := olareg.New(c17Conf(config.StoreDir, rk))
+		var obsA, probA string
+		if !withWatchdog(30*time.Second, func() { obsA, probA = c17Observe(sa, &lk) }) {
+			vfs.Kill(rk)
+			fail("conversion-hangs", "re-opening after a conversion with reading call %d failing did not finish", k)
+		}
+		_ = sa.Close()
+		if probA != "" {
+			fail("read-fault-repeat-result", "reading call %d of %d failed during the conversion, Close, then re-open: %s", k, nRead, probA)
+		}
+		if obsA != obs1 {
+			fail("read-fault-repeat-differs", "reading call %d failed during the conversion, Close, re-open gives other answers:\n--- uninterrupted\n%s--- after the error\n%s", k, obs1, obsA)
+		}
+		if probB != "" || obsB != obs1 {
+			fail("read-fault-same-process", "reading call %d of %d failed during the conversion; the same server, asked again with the storage healthy: %s\n--- uninterrupted\n%s--- asked again\n%s", k, nRead, probB, obs1, obsB)
+		}
+		st.Add("read-fault-points-checked", 1)
 		_ = os.RemoveAll(rk)
 	}
 	for _, k := range points {
